@@ -43,7 +43,7 @@ pub fn write_shards(
         let path = format!("{}/{}.v", out, name);
         let mut f = std::io::BufWriter::new(std::fs::File::create(&path).unwrap());
         writeln!(f, "From Coq Require Import List QArith ZArith NArith Bool.").unwrap();
-        writeln!(f, "From QmcV Require Import Model.Prog Model.Sse Model.Ham Model.Diagonal Model.Nav Model.FastOps Model.Cluster Model.Tempering Model.Classical Model.Pool Model.Autocorr Check.Common Check.Table Check.{}.", module).unwrap();
+        writeln!(f, "From QmcV Require Import Model.Prog Model.Sse Model.Ham Model.Diagonal Model.Nav Model.FastOps Model.Cluster Model.Tempering Model.Classical Model.Pool Model.Autocorr Model.Rvb Check.Common Check.Table Check.{}.", module).unwrap();
         writeln!(f, "Import ListNotations.").unwrap();
         writeln!(f, "Definition base : N := {}%N.", k * per_shard.max(1)).unwrap();
         writeln!(f, "Definition cases : list {}.case := [", module).unwrap();
